@@ -4,7 +4,7 @@ import os, sys, re, json, time, subprocess, hashlib, random, fcntl, importlib, t
 from concurrent.futures import ThreadPoolExecutor
 
 VERIF = os.path.dirname(os.path.dirname(os.path.abspath(__file__)))
-COQ = os.path.join(VERIF, 'coq')
+COQ = os.environ.get('VERIF_COQ') or os.path.join(VERIF, 'coq')     # VERIF_COQ: a scratch copy (seeded-change evaluation)
 REPO = os.environ.get('VERIF_REPO', '/repo')
 WORK = os.path.join(VERIF, 'work')
 CASES = os.path.join(COQ, 'Cases')
